@@ -51,3 +51,32 @@ impl LuaIndex for LuaDependencyIndex {
         self.dependencies.clear();
     }
 }
+
+#[cfg(feature = "verif-hooks")]
+impl LuaDependencyIndex {
+    pub(crate) fn verif_sizes(&self) -> Vec<(&'static str, usize)> {
+        vec![
+            ("dependencies", self.dependencies.len()),
+            (
+                "dependencies.edges",
+                self.dependencies.values().map(|v| v.len()).sum(),
+            ),
+        ]
+    }
+
+    pub(crate) fn verif_file_refs(&self, file_id: FileId) -> Vec<(&'static str, usize)> {
+        vec![
+            (
+                "dependencies",
+                self.dependencies.contains_key(&file_id) as usize,
+            ),
+            (
+                "dependencies.edges_to",
+                self.dependencies
+                    .values()
+                    .filter(|v| v.contains(&file_id))
+                    .count(),
+            ),
+        ]
+    }
+}
